@@ -493,6 +493,9 @@ func (g *gen) next1() (M, []bool) {
 		m = M{"type": "DisableAttester", "from": g.holder("attMgr"), "att": e}
 	case x < 85:
 		m = M{"type": "UpdateSignatureThreshold", "from": g.holder("attMgr"), "amt": g.r.Intn(6)}
+		if g.p(0.1) {
+			m["amt"] = g.pick2([]int{1000000, 1000001, 2000000, 1999999}) // around 2^31 and 2^32
+		}
 	case x < 89:
 		m = M{"type": g.pick([]string{"PauseBurningAndMinting", "UnpauseBurningAndMinting", "PauseSendingAndReceivingMessages",
 			"UnpauseSendingAndReceivingMessages", "UnpauseBurningAndMinting", "UnpauseSendingAndReceivingMessages"}), "from": g.holder("pauser")}
@@ -502,7 +505,7 @@ func (g *gen) next1() (M, []bool) {
 	case x < 96:
 		m = M{"type": "UnlinkTokenPair", "from": g.holder("tokCtl"), "d": g.domain(), "tok": g.token()}
 	default:
-		m = M{"type": "SetMaxBurnAmountPerMessage", "from": g.holder("tokCtl"), "denom": g.pick([]string{"MINT", "MINT_UP", "OTHER"}), "amt": g.r.Intn(6)}
+		m = M{"type": "SetMaxBurnAmountPerMessage", "from": g.holder("tokCtl"), "denom": g.pick([]string{"MINT", "MINT_UP", "OTHER"}), "amt": g.r.Intn(7) - 1}
 	}
 	faults := []bool{g.r.Intn(12) != 0, g.r.Intn(12) != 0}
 	return m, faults
@@ -651,3 +654,5 @@ func cmdDrive(tab *SymTab, bw *bufio.Writer, workers, n, depth int, seed int64) 
 	wwg.Wait()
 	fmt.Fprintf(os.Stderr, "drive: %d histories of %d steps\n", n, depth)
 }
+
+func (g *gen) pick2(xs []int) int { return xs[g.r.Intn(len(xs))] }
